@@ -112,6 +112,7 @@ Definition r_action (a : action) (R : reg) : reg :=
   | AAddGlobal cb ud period => r_add true KGlobal cb ud true (FTimed period (g_clock R)) R
   | ADel k cb => r_del k cb R
   | ASend d => if g_conn R then rset_sendq R (g_sendq R ++ [d]) else R
+  | AClk d => rset_clock R (g_clock R + d)
   end.
 
 Fixpoint r_actions (acts : list action) (R : reg) : reg :=
@@ -242,5 +243,9 @@ Definition calls_of (l : list event) : list nat :=
 (* a script whose handlers never name their own callback in a delete request
    ("delete other handlers") *)
 Definition del_cb (a : action) : option Z := match a with ADel _ cb => Some cb | _ => None end.
+(* a script whose callbacks take no time *)
+Definition instant (sc : script) : Prop :=
+  forall lg cb ud a, In a (fst (sc lg cb ud)) -> forall d, a <> AClk d.
+
 Definition others_only (sc : script) : Prop :=
   forall lg cb ud a, In a (fst (sc lg cb ud)) -> del_cb a <> Some cb.
